@@ -94,6 +94,26 @@ pub fn corpus_g(rich: bool) -> Vec<(Vec<u8>, Dialect)> {
     for s in ALT_OTHER {
         out.push((s.as_bytes().to_vec(), Dialect::Other));
     }
+    // hand-spelled scalars (NOT printer output: a changed printer must not change the corpus with
+    // it): every scalar below U+0300 and the UTF-8 / surrogate / range boundaries as an R6RS hex
+    // character, inside an R6RS string escape, and in the Emacs spellings
+    for cp in (0u32..0x300).chain([0x7ff, 0x800, 0xd7ff, 0xe000, 0xfffd, 0xffff, 0x10000, 0x10ffff]) {
+        if char::from_u32(cp).is_none() {
+            continue;
+        }
+        out.push((format!("#\\x{:x}", cp).into_bytes(), Dialect::Default));
+        out.push((format!("\"a\\x{:X};b\"", cp).into_bytes(), Dialect::Default));
+        if rich || cp < 0x100 || cp > 0x2f0 {
+            out.push((format!("?\\x{:x}", cp).into_bytes(), Dialect::Elisp));
+            out.push((format!("\"a\\x{:x}\\ b\"", cp).into_bytes(), Dialect::Elisp));
+            if cp <= 0o777 {
+                out.push((format!("?\\{:o}", cp).into_bytes(), Dialect::Elisp));
+            }
+            if cp > 0xff {
+                out.push((format!("\"\\u{:04x}\"", cp.min(0xffff)).into_bytes(), Dialect::Elisp));
+            }
+        }
+    }
     let el = PR::elisp();
     let mut vals = actx();
     let atoms = a12();
